@@ -57,7 +57,13 @@ func (r *Eval) Run(ctx context.Context, script []byte) (Object, *Bytecode, error
 	r.VM.modulesCache = r.ModulesCache
 	ret, err := r.run(ctx)
 	r.ModulesCache = r.VM.modulesCache
-	r.Locals = r.VM.GetLocals(r.Locals)
+	// arguments (or locals) beyond the locals of this script stay available to
+	// the next scripts, as they are to the rest of a single script
+	rest := r.Locals
+	r.Locals = r.VM.GetLocals(nil)
+	if len(rest) > len(r.Locals) {
+		r.Locals = append(r.Locals, rest[len(r.Locals):]...)
+	}
 	r.VM.Clear()
 
 	if err != nil {
